@@ -283,6 +283,23 @@ func runFromPoint(q ref.Pt, z *big.Int) string {
 			return "key from a re-decoded point object: " + m
 		}
 	}
+	// ... and a point that is the RESULT of the exported constant-time selection / negation with control words other
+	// than 0 and 1 (any non-zero word means "yes"): such a result is a valid point like any other, and a key built from it
+	// holds exactly that point
+	if !q.Inf {
+		other := lib.MkPTRep(ref.G().Mul(big.NewInt(11)), big.NewInt(7))
+		for _, ctrl := range []uint64{2, 0x100, 1 << 63, ^uint64(0) - 1} {
+			sel := secp256k1.NewIdentityPoint().ConditionalSelect(other, lib.MkPTRep(q, z), ctrl)
+			sel.ConditionalNegate(sel, ctrl)
+			ks, e := secec.NewPublicKeyFromPoint(sel)
+			if e != nil {
+				return fmt.Sprintf("rejected the point selected / negated with control word %#x: %v", ctrl, e)
+			}
+			if m := checkPub(ks, q.Neg()); m != "" {
+				return fmt.Sprintf("key from the point selected / negated with control word %#x: %s", ctrl, m)
+			}
+		}
+	}
 	k, err := secec.NewPublicKeyFromPoint(p)
 	if q.Inf {
 		if err == nil || k != nil {
